@@ -6,6 +6,7 @@
 (*   [k |-> "dyn", name]              non-empty run without '/'          ({name})           *)
 (*   [k |-> "dig", name]              custom regex [0-9]+                 ({name:[0-9]+})    *)
 (*   [k |-> "ab",  name]              custom regex [ab]+                  ({name:[ab]+})     *)
+(*   [k |-> "grp", name]              custom regex with its own group     ({name:(a|1)+})    *)
 (*   [k |-> "tail", name]             the rest of the path, may be empty  ({name} star)       *)
 (* Matches(pat, path, prefix) is the set of all decompositions <<end, caps>> the definition  *)
 (* allows; the three ways of asking (is_match, find_match, capture_match_info) must agree    *)
@@ -16,7 +17,7 @@ Rej(sig, clause) == [tag |-> "rej", sig |-> sig, clause |-> clause]
 E(c, ok, sig) == IF c THEN ok ELSE Rej(sig, "")
 
 Digits == {"0", "1", "2", "3", "4", "5", "6", "7", "8", "9"}
-InClass(k, c) == CASE k = "dyn" -> c # "/" [] k = "dig" -> c \in Digits [] k = "ab" -> c \in {"a", "b"} [] OTHER -> FALSE
+InClass(k, c) == CASE k = "dyn" -> c # "/" [] k = "dig" -> c \in Digits [] k = "ab" -> c \in {"a", "b"} [] k = "grp" -> c \in {"a", "1"} [] OTHER -> FALSE
 
 RECURSIVE MatchFrom(_, _, _, _)
 MatchFrom(pat, i, path, pos) ==       \* set of <<next position, captures>>; a capture is <<name, from, to>>
